@@ -124,23 +124,24 @@ func guardHit(g []byte) bool {
 }
 
 type runner struct {
-	name      string
-	eng       engine.KVEngine
-	md        *model
-	shared    engine.WriteBatch
-	cleared   map[string][]Op
-	findings  []Finding
-	diverged  bool
-	st        *Stats
-	oplog     func(string)
-	stepIdx   int
-	maxFind   int
-	exercised bool
-	openAlt   *model // while a batch is open: the state as if it were committed
-	openBase  map[int][]kv // results of the open-read iterator queries just before the batch was filled
-	openIdx   int
-	leak      bool
-	lastArgs  [][]byte // key arguments of the engine call in progress (for panic classification)
+	name         string
+	eng          engine.KVEngine
+	md           *model
+	shared       engine.WriteBatch
+	cleared      map[string][]Op
+	findings     []Finding
+	diverged     bool
+	st           *Stats
+	oplog        func(string)
+	stepIdx      int
+	maxFind      int
+	exercised    bool
+	openAlt      *model       // while a batch is open: the state as if it were committed
+	openBase     map[int][]kv // results of the open-read iterator queries just before the batch was filled
+	openIdx      int
+	leak         bool
+	emptyStartDR bool     // a DeleteRange starting at the empty key was committed
+	lastArgs     [][]byte // key arguments of the engine call in progress (for panic classification)
 }
 
 // panicFunc names the innermost engine / radix / pebble frame of the current panic stack.
@@ -189,6 +190,11 @@ func (r *runner) logf(f string, a ...interface{}) {
 }
 
 func (r *runner) report(sig, summary string, detail interface{}) {
+	if r.name == "pebble" && r.emptyStartDR && !strings.Contains(sig, "@") {
+		// everything pebble shows after a committed DeleteRange that starts at the
+		// empty key is classified apart (the tombstone is lost at compaction)
+		sig += "@empty-start-delrange"
+	}
 	if len(r.findings) < r.maxFind {
 		r.findings = append(r.findings, Finding{Sig: sig, Summary: summary, Engine: r.name, Step: r.stepIdx, Detail: detail})
 	}
@@ -452,6 +458,11 @@ func (r *runner) batchStep(st *Step) {
 			r.diverged = true
 		} else {
 			r.md.apply(st.Ops)
+			for _, o := range st.Ops {
+				if o.Kind == "delrange" && len(o.Key) == 0 {
+					r.emptyStartDR = true
+				}
+			}
 		}
 	case "clear":
 		r.logf("wb.Clear(%s) uncommitted", st.Obj)
@@ -488,6 +499,7 @@ func (r *runner) batchStep(st *Step) {
 }
 
 func (r *runner) openIter(s IterSpec) (*engine.RangeLimitedIterator, func(), error) {
+	r.lastArgs = [][]byte{s.Min, s.Max}
 	opts := engine.IteratorOpts{
 		Range:     engine.Range{Min: guard(s.Min), Max: guard(s.Max), Type: s.Type},
 		Limit:     engine.Limit{Offset: s.Offset, Count: s.Count},
